@@ -7,7 +7,7 @@ set -u
 cd "$(dirname "$0")/.."
 export GOFLAGS=-mod=mod GOPROXY=off GOSUMDB=off GOTOOLCHAIN=local; unset GOWORK
 export RDIR="${RDIR:-/verif/refactorings}"
-ids=("$@"); [ ${#ids[@]} -eq 0 ] && ids=($(ls "$RDIR"))
+ids=("$@"); [ ${#ids[@]} -eq 0 ] && ids=($(ls "$RDIR" | grep -v -e MATRIX -e FIRSTPASS))
 one() {
   sid="$1"
   WT=$(mktemp -d /tmp/pl-rf-XXXXXX)
